@@ -5,6 +5,7 @@ mod util;
 mod pending;
 mod oplog;
 mod node;
+mod disk;
 
 fn main() {
     let args: Vec<String> = std::env::args().collect();
@@ -18,6 +19,7 @@ fn main() {
         "pending" => pending::run(&args[2], &workdir),
         "oplog" => oplog::run(&args[2], &workdir),
         "node" => node::run(&args[2], &workdir),
+        "disk" => disk::run(&args[2], &workdir),
         d => {
             eprintln!("unknown driver {}", d);
             std::process::exit(2);
